@@ -69,3 +69,16 @@ def run(ctx):
                        "by VIEW to distinct tree shapes; every (shape,key) transition is replayed into tree.c and the full "
                        "shape (keys, stored heights, new flag) compared. non-trivial = history of >= 2 keys followed by an insertion")
     tree_direct(ctx)
+    import c15_switch
+    objdir = vlib.build("plain")
+    runtime = ctx.path("rt.c")
+    open(runtime, "w").write('#include <stdio.h>\nvoid obs(long long v) { printf("%lld\\n", v); }\n')
+    c15_switch.run_switches(ctx, objdir, runtime, lambda t: t == "x86_64-sysv")
+    # duplicate case constants / duplicate default must be rejected
+    for src, what in (("void f(int v){switch(v){case 1:;case 1:;}}", "dup-case"), ("void f(int v){switch(v){default:;default:;}}", "dup-default"),
+                      ("void f(unsigned char v){switch(v){case -1:;case 0xffffffff:;}}", "dup-case-after-conversion"),
+                      ("void f(long v){switch(v){case 0x100000000:;case 0x100000000:;}}", "dup-case-64")):
+        rc, out, err = vlib.cproc(objdir, src)
+        ctx.count("dup:" + what)
+        if rc != 1 or "error" not in err:
+            ctx.violation("switch:%s-accepted" % what, "duplicate label not diagnosed: rc=%s" % rc, {"source": src})
